@@ -1,6 +1,7 @@
 package rdb
 
 import (
+	"bytes"
 	"encoding/binary"
 	"io"
 	"math"
@@ -223,9 +224,25 @@ func (r *RdbReader) ReadBytesP(n int) []byte {
 	return p
 }
 
+// readBytesChunk: above this size a byte string is read piecewise, so that a damaged length field
+// (up to 2^64 in the format) costs memory in proportion to the bytes that really arrive instead of
+// one allocation of the announced size (which can end the process with "out of memory").
+const readBytesChunk = 16 * 1024 * 1024
+
 func (r *RdbReader) ReadBytes(n int) ([]byte, error) {
-	p := make([]byte, n)
-	return p, r.readFull(p)
+	if n < 0 {
+		return nil, errors.Errorf("invalid length : %d", n)
+	}
+	if n <= readBytesChunk {
+		p := make([]byte, n)
+		return p, r.readFull(p)
+	}
+	var buf bytes.Buffer
+	got, err := io.CopyN(&buf, r, int64(n))
+	if err == io.EOF && got < int64(n) {
+		err = io.ErrUnexpectedEOF
+	}
+	return buf.Bytes(), errors.WithStack(err)
 }
 
 func (r *RdbReader) ReadUint8P() uint8 {
